@@ -558,6 +558,6 @@ def run(ctx):
         s4C19.rule_pair(ctx),
         s4C19.rule_longcmp(ctx),
         s4C19.rule_inttype(ctx),
-        # s4C19.rule_dupkey(ctx),       # pending finding (FINDING_C19_1: CharNode case values of `c in b"ab"` are keyed by a bytes slice, `c == 97 or c in b"ab"` -> duplicate case labels)
+        s4C19.rule_dupkey(ctx),         # armed after the repair 070eee6dd (FINDING_C19_1: CharNode case values of `c in b"ab"` are keyed by a bytes slice, `c == 97 or c in b"ab"` -> duplicate case labels)
         # sC19.rule_cmpiv_llp64(ctx),   # pending finding (FINDING_2: 32-bit long fallback of CompareFloatInt)
     ]
